@@ -371,14 +371,19 @@ def R8_binders(ctx, rid, core):
     inl = core.hir_fn(A2S + "expr_to_source_with_scope")
     from rules.c04 import innermost_ast_arm
     def construct_arm(g):
-        """the arm of the function's own dispatch on the node kind (the outermost one): a match on the kind of a *member* inside it
-        (`match &stmt.node { Assignment {..} => .. }` in the do-block arm) does not make the member kind a binder of its own"""
+        """the innermost arm over the node kind - except that a match on the kind of a do-block *statement* inside the do-block arm
+        (`match &stmt.node { Assignment {..} => bound.insert(..) }`) does not make Assignment a binder of its own: the do-block is"""
+        labs = []
         for gg in g:
             if gg[0] == "arm":
                 vs = [v for v in H.pat_variants(gg[1]["pat"]) if "ast::Expr::" in v or "ast::RecordKey::" in v]
                 if vs:
-                    return "|".join(sorted(v.replace(CORE + "ast::", "") for v in vs))
-        return None
+                    labs.append("|".join(sorted(v.replace(CORE + "ast::", "") for v in vs)))
+        if not labs:
+            return None
+        if labs[-1] == "Expr::Assignment" and "Expr::DoBlock" in labs[:-1]:
+            return "Expr::DoBlock"
+        return labs[-1]
     b_cfv = set()
     for n, e, g in scope.sites(cfv["body"], lambda n: H.kind(n) == "MethodCall" and n["name"] in ("insert", "extend") and "HashSet" in n.get("recv_ty", ""), S.Env()):
         b_cfv.add(construct_arm(g))
